@@ -14,11 +14,13 @@ type rowLoop struct {
 	Latch    *ssa.BasicBlock
 	C, Idx   *ssa.Phi
 	Off      *ssa.Phi
-	Presence *ssa.Call // presence.Bit(c)
-	Null     *ssa.Call // null.Bit(idx)
-	Len      *ssa.Call // cellLength(...) / CellBytes(...)
-	LenRes   ssa.Value // the int result of Len
-	Family   string    // "Data" / "Identify" by the presence bitmap's field name
+	Presence *ssa.Call                    // presence.Bit(c)
+	Null     *ssa.Call                    // null.Bit(idx)
+	Len      *ssa.Call                    // cellLength(...) / CellBytes(...)
+	LenRes   ssa.Value                    // the int result of Len
+	Family   string                       // "Data" / "Identify" by the presence bitmap's field name
+	Env      map[*ssa.Parameter]ssa.Value // when the loop lives in a helper: its parameters' values at the call site
+	Site     *ssa.Call                    // that call site (nil for a loop in the function itself)
 	// per path class: increments of (c, idx, off) as terms over {c, idx, off, L}
 	Paths map[string]map[string]string
 	// predecessor block of the merge for each class (where per-path effects live)
@@ -38,12 +40,27 @@ func isBitCall(v ssa.Value) (*ssa.Call, bool) {
 }
 
 // bitmapField names the struct field holding the bitmap a Bit() call tests.
-func bitmapField(c *ssa.Call) string {
-	recv := c.Common().Args[0]
+func bitmapField(c *ssa.Call) string { return bitmapFieldEnv(c, nil) }
+
+func bitmapFieldEnv(c *ssa.Call, env map[*ssa.Parameter]ssa.Value) string {
+	recv := strip(c.Common().Args[0])
+	if p, ok := recv.(*ssa.Parameter); ok && env != nil {
+		if av, bound := env[p]; bound {
+			recv = strip(av)
+		}
+	}
 	if fa, ok := recv.(*ssa.FieldAddr); ok {
 		return fieldName(fa)
 	}
 	return "?"
+}
+
+// NullField / PresenceField name the bitmaps the loop tests, resolved through the call site when the loop is in a helper.
+func (rl *rowLoop) NullField() string {
+	if rl.Null == nil {
+		return "?"
+	}
+	return bitmapFieldEnv(rl.Null, rl.Env)
 }
 
 func isLoopHeader(b *ssa.BasicBlock) bool {
@@ -57,6 +74,33 @@ func isLoopHeader(b *ssa.BasicBlock) bool {
 
 // findRowLoops locates the loops of f that call a (data,pos,typ,metadata,...) length function.
 func findRowLoops(w *World, f *ssa.Function, isLenFn func(*ssa.Function) bool) []*rowLoop {
+	return findRowLoopsEnv(w, f, isLenFn, nil, nil)
+}
+
+// findRowLoopsDeep: the loops of f itself plus, per call site, those of the in-package functions f calls directly.
+func findRowLoopsDeep(w *World, f *ssa.Function, isLenFn func(*ssa.Function) bool) []*rowLoop {
+	out := findRowLoops(w, f, isLenFn)
+	instrs(f, func(in ssa.Instruction) {
+		c, ok := in.(*ssa.Call)
+		if !ok || c.Common().IsInvoke() {
+			return
+		}
+		g := c.Common().StaticCallee()
+		if g == nil || g.Blocks == nil || g.Pkg != f.Pkg || g == f || isLenFn(g) {
+			return
+		}
+		env := map[*ssa.Parameter]ssa.Value{}
+		for i, a := range c.Common().Args {
+			if i < len(g.Params) {
+				env[g.Params[i]] = a
+			}
+		}
+		out = append(out, findRowLoopsEnv(w, g, isLenFn, env, c)...)
+	})
+	return out
+}
+
+func findRowLoopsEnv(w *World, f *ssa.Function, isLenFn func(*ssa.Function) bool, env map[*ssa.Parameter]ssa.Value, site *ssa.Call) []*rowLoop {
 	var out []*rowLoop
 	instrs(f, func(in ssa.Instruction) {
 		call, ok := in.(*ssa.Call)
@@ -71,7 +115,7 @@ func findRowLoops(w *World, f *ssa.Function, isLenFn func(*ssa.Function) bool) [
 		if !ok || !isLoopHeader(off.Block()) {
 			return
 		}
-		rl := &rowLoop{Fn: f, Header: off.Block(), Off: off, Len: call, Paths: map[string]map[string]string{}, PathBlock: map[string][]*ssa.BasicBlock{}}
+		rl := &rowLoop{Fn: f, Env: env, Site: site, Header: off.Block(), Off: off, Len: call, Paths: map[string]map[string]string{}, PathBlock: map[string][]*ssa.BasicBlock{}}
 		// result
 		if tup, ok := call.Type().(*types.Tuple); ok {
 			for _, ref := range *call.Referrers() {
@@ -93,7 +137,7 @@ func findRowLoops(w *World, f *ssa.Function, isLenFn func(*ssa.Function) bool) [
 		}
 		if rl.Presence != nil {
 			rl.C, _ = rl.Presence.Common().Args[1].(*ssa.Phi)
-			rl.Family = familyOf(bitmapField(rl.Presence))
+			rl.Family = familyOf(bitmapFieldEnv(rl.Presence, env))
 		}
 		if rl.Null != nil {
 			rl.Idx, _ = rl.Null.Common().Args[1].(*ssa.Phi)
